@@ -140,6 +140,23 @@ def C02 (q : Request) (pre post : Regs) : Prop :=
 instance (q : Request) (pre post : Regs) : Decidable (C02 q pre post) := by
   unfold C02; infer_instance
 
+/-- the part of C02 that C09 is about: the block holds the datasheet encoding (saturated values) -/
+def C02Block (q : Request) (pre post : Regs) : Prop :=
+  (∀ a ∈ q.block, post a = DS.Request.spec q pre a) ∧
+  (∀ a ∈ q.block, post a &&& ~~~DS.definedMask a = 0#8)
+
+instance (q : Request) (pre post : Regs) : Decidable (C02Block q pre post) := by
+  unfold C02Block; infer_instance
+
+/-- "every register write is one transaction" seen from above: whatever a fault-free call
+    RECORDED as written (the recorded configuration changed at `a` to `v`) went over the bus as
+    an acknowledged write of `v` to `a` -/
+def Recorded (shPre shPost : Regs) (ws : List W) : Prop :=
+  ∀ a ∈ DS.cfgAddrs, shPost a ≠ shPre a → (⟨a, shPost a⟩ : W) ∈ ws
+
+instance (shPre shPost : Regs) (ws : List W) : Decidable (Recorded shPre shPost ws) := by
+  unfold Recorded; infer_instance
+
 /-! ## C07 : parameters rewritten only while the interrupt is disabled -/
 
 /-- walk the acknowledged writes; `c` is the device at that instant -/
